@@ -22,12 +22,14 @@ import (
 
 	"github.com/bits-and-blooms/bloom/v3"
 	"github.com/daeuniverse/dae/common/consts"
+	daerrors "github.com/daeuniverse/dae/common/errors"
 	"github.com/daeuniverse/dae/common/netutils"
 	"github.com/daeuniverse/dae/config"
 	componentdns "github.com/daeuniverse/dae/component/dns"
 	ob "github.com/daeuniverse/dae/component/outbound"
 	componentdialer "github.com/daeuniverse/dae/component/outbound/dialer"
 	"github.com/daeuniverse/dae/component/sniffing"
+	D "github.com/daeuniverse/outbound/dialer"
 	"github.com/daeuniverse/outbound/netproxy"
 	dnsmessage "github.com/miekg/dns"
 	"github.com/sirupsen/logrus"
@@ -53,6 +55,8 @@ type c18Op struct {
 	Answer    string `json:"answer,omitempty"` // found | found6 | norecord | halffail | fail
 	// dial (chooseProxyDialer): like choose, plus the outbound the routing fallback rule names
 	RouteTo uint8  `json:"route_to,omitempty"`
+	// route_dial (routeDial): like dial; the node dialer fails its first FailFirst dials with "network unreachable"
+	FailFirst int `json:"fail_first,omitempty"`
 	Network string `json:"network,omitempty"`
 }
 
@@ -104,8 +108,33 @@ type c18Step struct {
 	NegDelta int64 `json:"neg_delta,omitempty"` // its expiry minus now
 	Itoa   string `json:"itoa,omitempty"`
 	FinalOutbound int `json:"final_outbound"` // dial: index of the group chosen, -1 on error
+	Attempts []c18Attempt `json:"attempts,omitempty"` // route_dial: the address handed to the node dialer on EVERY attempt
 	Err    string `json:"err,omitempty"`
 	Panic  string `json:"panic,omitempty"`
+}
+
+type c18Attempt struct {
+	Target string   `json:"target"`
+	Split  c18Split `json:"split"`
+	Strs   []c18Str `json:"strs"`
+}
+
+// records every address handed to the proxy node; fails the first failFirst dials with a local network failure
+type c18RecDialer struct {
+	mu        sync.Mutex
+	targets   []string
+	failFirst int
+	conn      netproxy.Conn
+}
+
+func (d *c18RecDialer) DialContext(_ context.Context, _ string, addr string) (netproxy.Conn, error) {
+	d.mu.Lock()
+	defer d.mu.Unlock()
+	d.targets = append(d.targets, addr)
+	if len(d.targets) <= d.failFirst {
+		return nil, daerrors.ErrNetworkUnreachable
+	}
+	return d.conn, nil
 }
 
 type c18Result struct {
@@ -367,7 +396,7 @@ func c18RunInBubble(cs c18Case, res *c18Result) {
 				}
 			case "neg_set":
 				cp.realDomainNegSet.Store(c18Unhex(op.Name), time.Now().UnixNano()+op.Delta)
-			case "choose", "dial":
+			case "choose", "dial", "route_dial":
 				raw := c18Unhex(op.Raw)
 				lt := strings.ToLower(strings.TrimSpace(raw))
 				domain := raw
@@ -382,7 +411,47 @@ func c18RunInBubble(cs c18Case, res *c18Result) {
 				var target string
 				var reroute, dialIp bool
 				st.FinalOutbound = -1
-				if op.Op == "dial" {
+				if op.Op == "route_dial" {
+					clientConn, serverConn := net.Pipe()
+					defer func() { _ = clientConn.Close(); _ = serverConn.Close() }()
+					rec := &c18RecDialer{failFirst: op.FailFirst, conn: clientConn}
+					d := componentdialer.NewDialer(rec, &componentdialer.GlobalOption{Log: lg, CheckInterval: time.Second},
+						componentdialer.InstanceOption{DisableCheck: true},
+						&componentdialer.Property{Property: D.Property{Name: "node", Address: "proxy.example:443", Protocol: "shadowsocks_2022"}})
+					g := ob.NewDialerGroup(&componentdialer.GlobalOption{Log: lg, CheckInterval: time.Second}, "rec",
+						[]*componentdialer.Dialer{d}, []*componentdialer.Annotation{{}},
+						ob.DialerSelectionPolicy{Policy: consts.DialerSelectionPolicy_Fixed, FixedIndex: 0},
+						func(bool, *componentdialer.NetworkType, bool) {})
+					outs := append([]*ob.DialerGroup{}, c18Groups...)
+					outs[op.Outbound] = g
+					cp.outbounds = outs
+					defer func() { cp.outbounds = c18Groups }()
+					cp.routingMatcher = &RoutingMatcher{
+						domainMatcher:   c18NoDomains{},
+						compiledMatches: []compiledRoutingMatch{{matchType: consts.MatchType_Fallback, outbound: consts.OutboundIndex(op.RouteTo)}},
+					}
+					conn, res, err := cp.routeDial(context.Background(), &proxyDialParam{
+						Outbound: consts.OutboundIndex(op.Outbound),
+						Domain:   domain,
+						Src:      netip.MustParseAddrPort("192.0.2.7:40000"),
+						Dest:     dst,
+						Network:  "tcp",
+					})
+					if err != nil {
+						st.Err = err.Error()
+					} else {
+						_ = conn.Close()
+						target, dialIp = res.DialTarget, res.IsDialIp
+						if res.Outbound == g {
+							st.FinalOutbound = int(op.Outbound)
+						}
+					}
+					rec.mu.Lock()
+					for _, a := range rec.targets {
+						st.Attempts = append(st.Attempts, c18Attempt{Target: c18Hex(a), Split: c18SplitOf(a), Strs: c18Derived(domain, lt, a)})
+					}
+					rec.mu.Unlock()
+				} else if op.Op == "dial" {
 					cp.routingMatcher = &RoutingMatcher{
 						domainMatcher:   c18NoDomains{},
 						compiledMatches: []compiledRoutingMatch{{matchType: consts.MatchType_Fallback, outbound: consts.OutboundIndex(op.RouteTo)}},
